@@ -154,6 +154,16 @@ for mod, names in ((C01, ('get_CpoR', 'get_HoRT', 'get_SoR')), (C07, ('get_Selem
         if any(n_ in u.name for n_ in names):
             if getattr(u, 'world_factory', None) is None:
                 u.world_factory = mod.world
+            if 'GetQueryMatches' in u.name:
+                # completeness of the match list (known finding K4 of C08) is not a question of history-independence: precondition here
+                def _wrap(run):
+                    def run2(I):
+                        I.ctx.assumed_obligations = ('no embedding is cut off',)
+                        return run(I)
+                    return run2
+                u2 = Unit(u.name, u.target, _wrap(u.run_fn), None)
+                u2.world_factory = u.world_factory
+                u = u2
             UNITS.append(u)
 
 from . import standins
